@@ -150,6 +150,12 @@ def rule_r2(p, res):
         s = norm(f.node)
         d = Defs(f.node)
         rets = returns_of(f.node)
+        if len(rets) == 1 and isinstance(rets[0].value, ast.Call) and isinstance(rets[0].value.func, ast.Name) and rets[0].value.func.id in (cname, "type", "cls"):
+            # copy written as a constructor call: every piece of the receiver's state handed over must itself be copied
+            shared = [a_ for a_ in list(rets[0].value.args) + [kw.value for kw in rets[0].value.keywords] if isinstance(a_, ast.Attribute) and isinstance(a_.value, ast.Name) and a_.value.id == "self"]
+            r.check(not shared, f, rets[0], "%s builds the copy by calling the constructor with the receiver's own `%s`: unless the constructor copies it (it is not asked to), copy and original share "
+                    "that object and a change to either shows in both" % (f.short, norm(shared[0]) if shared else ""), {"override": f.short, "base": "constructor"})
+            continue
         need(len(rets) == 1 and isinstance(rets[0].value, ast.Name), "C06.R2: %s must return a local" % f.short)
         new = rets[0].value.id
         v = d.single(new)
@@ -431,10 +437,34 @@ def rule_r7(p, res):
         raise AnalysisError("C06.R7: only %d rebuilding from_vector methods that pass receiver state found (floor 2)" % m)
 
 
+def rule_r8(p, res):
+    r = res.rule("C06.R8", "a method that works on self.copy() takes what it stores in the copy from the copy (or from fresh arrays), not from views of the receiver")
+    for cname, mname in (("Image", "as_greyscale"),):
+        f = p.own_method(cname, mname)
+        r.instance(f)
+        d = Defs(f.node)
+        cp = [nm for nm, ds in d.defs.items() if any(kd == "assign" and isinstance(v, ast.Call) and norm(v) == "self.copy()" for kd, v, st in ds)]
+        need(len(cp) == 1, "C06.R8: %s.%s no longer starts from self.copy()" % (cname, mname))
+        new = cp[0]
+        stores = [n for n in walk_own(f.node) if isinstance(n, ast.Assign) and any(isinstance(t, ast.Attribute) and isinstance(t.value, ast.Name) and t.value.id == new for t in n.targets)]
+        need(stores, "C06.R8: %s.%s stores nothing in its copy" % (cname, mname))
+        for st in stores:
+            lv = leaves(st.value, d)
+            views = sorted(x for x in lv if x.startswith("self.") and not x.startswith("self.copy"))
+            # a leaf `self.pixels` is harmless only below an operation that allocates (dot, mean, arithmetic); plain indexing and
+            # astype(copy=False) do not
+            bad = []
+            for nm in [x.id for x in ast.walk(st.value) if isinstance(x, ast.Name)]:
+                for kd, v, s_ in d.of(nm):
+                    if kd == "assign" and isinstance(v, ast.Subscript) and norm(v.value).startswith("self.") :
+                        bad.append(norm(v))
+            r.check(not bad, f, st, "%s.%s stores `%s` (a view of the receiver's own array) in the copy it returns: the two images then share pixel storage" % (cname, mname, bad[0] if bad else ""))
+
+
 # rules of sibling properties over code paths this property's statement also quantifies over (DESIGN.md section 3, shared rules)
 ALSO = ['C15.R3']
 
-RULES = [rule_r1, rule_r2, rule_r3, rule_r4, rule_r5, rule_r6, rule_r7]
+RULES = [rule_r1, rule_r2, rule_r3, rule_r4, rule_r5, rule_r6, rule_r7, rule_r8]
 
 WITNESSES = [
     Witness("C06.W1", "menpo/landmark/base.py", "LandmarkManager.copy", "for k, v in new._landmark_groups.items():\n        new._landmark_groups[k] = v.copy()", "pass",
@@ -471,4 +501,13 @@ WITNESSES += [
 WITNESSES += [
     Witness("C06.W15", "menpo/image/masked.py", "MaskedImage.from_vector", "MaskedImage(image_data, mask=self.mask)", "MaskedImage(image_data, mask=self.mask, copy=False)",
             rule="C06.R7", construct="MaskedImage.from_vector", note="seeded change R4-C06-B"),
+]
+
+EXTRA_SCOPE = ["menpo.shape.graph.PointTree.__init__", "menpo.shape.graph.PointDirectedGraph.__init__", "menpo.shape.graph.PointUndirectedGraph.__init__", "menpo.shape.graph.Tree.__init__",
+               "menpo.shape.graph.Graph.__init__"]
+
+WITNESSES += [
+    Witness("C06.W16", "menpo/image/base.py", "Image.as_greyscale", "pixels = greyscale.pixels[channel]", "pixels = self.pixels[channel]", rule="C06.R8", construct="as_greyscale", note="seeded change R5-C06-C"),
+    Witness("C06.W17", "menpo/shape/graph.py", "PointTree.__init__", "root_vertex, copy=copy, skip_checks=skip_checks)", "root_vertex, copy=False, skip_checks=skip_checks)", rule="C06.G7", construct="PointTree.__init__",
+            note="seeded change R5-C06-B (generic: copy=False where the caller's flag was forwarded)"),
 ]
